@@ -64,3 +64,20 @@ package job
 //@   ensures result != nil && result.Name == rj.Name && result.Namespace == rj.Namespace && result.UID == rj.UID && result.Spec == rj.Spec
 //@        && result.Finalizers == rj.Finalizers && result.DeletionTimestamp == rj.DeletionTimestamp && result.Status.StartTime == rj.Status.StartTime
 //@        && len(result.Status.Tasks) == len(rj.Status.Tasks) && (forall k int :: 0 <= k && k < len(rj.Status.Tasks) ==> result.Status.Tasks[k].Name == rj.Status.Tasks[k].Name)
+
+// ---- task_status.go: GetTaskRef ---------------------------------------------------------------------------------------
+// (C11) recorded running / finish times are never cleared; (C09) a DeletedStatus that was set is kept unless the task reports its own final status.
+
+//@ func GetTaskRef
+//@   tags C09, C11
+//@   ensures [C11] name-from-task: result.Name == jobtasks.taskName(task)
+//@   ensures [C11] running-time-never-cleared: existing != nil && !existing.RunningTimestamp.IsZero() ==> !result.RunningTimestamp.IsZero()
+//@   ensures [C11] finish-time-never-cleared: existing != nil && !existing.FinishTimestamp.IsZero() ==> !result.FinishTimestamp.IsZero()
+//@   ensures [C11] running-time-from-task-else-kept: !jobtasks.taskRefOf(task).RunningTimestamp.IsZero() ==> execution.tsSame(result.RunningTimestamp, jobtasks.taskRefOf(task).RunningTimestamp)
+//@   ensures [C11] kept-running-time: existing != nil && jobtasks.taskRefOf(task).RunningTimestamp.IsZero() ==> result.RunningTimestamp == existing.RunningTimestamp
+//@   ensures [C11] kept-finish-time: existing != nil && jobtasks.taskRefOf(task).FinishTimestamp.IsZero() ==> result.FinishTimestamp == existing.FinishTimestamp
+//@   ensures [C09] final-status-recorded: !jobtasks.taskRefOf(task).FinishTimestamp.IsZero() ==> result.DeletedStatus != nil && *result.DeletedStatus == result.Status
+//@   ensures [C09] deleted-status-kept: existing != nil && jobtasks.taskRefOf(task).FinishTimestamp.IsZero() ==> execution.statusSame(result.DeletedStatus, existing.DeletedStatus)
+//@   ensures [C11] status-from-task: result.Status == jobtasks.taskRefOf(task).Status && result.RetryIndex == jobtasks.taskRefOf(task).RetryIndex
+//@   ensures [C11] finish-time-stable: existing != nil && !existing.FinishTimestamp.IsZero() && !jobtasks.taskRefOf(task).FinishTimestamp.IsZero()
+//@        ==> execution.tsSame(result.FinishTimestamp, existing.FinishTimestamp)
